@@ -34,11 +34,12 @@ type nctx struct {
 	funcs    map[string]*ast.FuncDecl // "Recv.Name" and "Name" -> declaration
 	noInline map[string]bool          // callees never expanded (by function name)
 	expanded map[*ast.FuncDecl]bool   // helpers expanded by the enumerations run on this context
+	consts   map[string]string        // package-level constants with a literal value: name -> literal text
 }
 
 // without returns a copy of the context that does not expand calls of the named functions.
 func (c *nctx) without(names ...string) *nctx {
-	n := &nctx{funcs: c.funcs, noInline: map[string]bool{}}
+	n := &nctx{funcs: c.funcs, noInline: map[string]bool{}, consts: c.consts}
 	for k := range c.noInline {
 		n.noInline[k] = true
 	}
@@ -157,15 +158,64 @@ func (e *nenum) runTop(fr *nframe, fd *ast.FuncDecl) []bpath {
 	for _, s := range e.cur {
 		out = append(out, s.p)
 	}
-	return propagateAll(out)
+	return propagateAll(runDeferred(out))
+}
+
+// runDeferred: a deferred plain call runs when the function returns: its call event is repeated just before the
+// return that ends the path (last deferred first), so that `defer cleanup()` after an acquire and an explicit
+// cleanup() before the return read the same. Deferred closures keep their own rules.
+func runDeferred(paths []bpath) []bpath {
+	for i, p := range paths {
+		var deferred []pev
+		for _, e := range p {
+			if e.Kind == "call" && strings.HasPrefix(e.Text, "defer ") && !strings.HasPrefix(e.Text, "defer (func(") && !strings.HasPrefix(e.Text, "defer func(") {
+				deferred = append(deferred, pev{"call", strings.TrimPrefix(e.Text, "defer "), e.Node})
+			}
+		}
+		if len(deferred) == 0 {
+			continue
+		}
+		q := make(bpath, 0, len(p)+len(deferred))
+		end := len(p)
+		if end > 0 && p[end-1].Kind == "return" {
+			end--
+		}
+		q = append(q, p[:end]...)
+		for k := len(deferred) - 1; k >= 0; k-- {
+			q = append(q, deferred[k])
+		}
+		q = append(q, p[end:]...)
+		paths[i] = q
+	}
+	return paths
 }
 
 // propagateAll propagates values along every path and drops the paths that became infeasible (a fact reads false).
 func propagateAll(in []bpath) []bpath {
 	var out []bpath
 	for _, p := range in {
-		q := propagate(p)
+		q, raws := propagateRaw(p)
 		feasible := true
+		// a local tested twice on one path, with no store to it in between, has one value: `$n` and `!$n` cannot
+		// both be assumed, whatever expression the local stands for
+		for i := range q {
+			if q[i].Kind != "+" || i >= len(raws) {
+				continue
+			}
+			ri := raws[i]
+			name := strings.TrimPrefix(ri, "!")
+			if dollarRe.FindString(name) != name || name == "" {
+				continue
+			}
+			for j := i + 1; j < len(q) && j < len(raws); j++ {
+				if q[j].Kind == "set" && strings.HasPrefix(q[j].Text, name+"=") {
+					break
+				}
+				if q[j].Kind == "+" && strings.TrimPrefix(raws[j], "!") == name && raws[j] != ri {
+					feasible = false
+				}
+			}
+		}
 		// facts decided by their own text: nil compared with nil, a freshly built error compared with nil
 		var kept bpath
 		for _, e := range q {
@@ -290,6 +340,12 @@ var allocCallRe = regexp.MustCompile(`^(\w+\.)?New\w*\(`)
 // when that value is a plain value (not an allocation, not a container update): `$1=false … $1=true … return $1`
 // reads `return true`. Loops are unrolled once, so a value set in the loop body is the value seen after it.
 func propagate(p bpath) bpath {
+	q, _ := propagateRaw(p)
+	return q
+}
+
+// propagateRaw is propagate; raw[i] is the text of fact i before values were substituted ("" for other events).
+func propagateRaw(p bpath) (bpath, []string) {
 	env := map[string]string{}
 	sub := func(s string) string {
 		if len(env) == 0 || !strings.Contains(s, "$") {
@@ -317,6 +373,7 @@ func propagate(p bpath) bpath {
 		return true
 	}
 	out := make(bpath, 0, len(p))
+	var raws []string
 	seenCall := map[string]int{}
 	// a numbered local that is stored into (as a base) or has methods with effects called on it names an object
 	object := map[string]bool{}
@@ -343,6 +400,7 @@ func propagate(p bpath) bpath {
 			if strings.HasPrefix(ev.Text, "range ") {
 				ne.Text = "range " + minParens(sub(strings.TrimPrefix(ev.Text, "range ")))
 			}
+			raws = append(raws, "")
 			out = append(out, ne) // a counting header keeps its variables: the bounds are read from the preceding sets
 			// a variable stepped by the loop is not a constant inside it
 			for _, m := range loopStepRe.FindAllStringSubmatch(ev.Text, -1) {
@@ -360,6 +418,7 @@ func propagate(p bpath) bpath {
 				} else {
 					delete(env, name)
 				}
+				raws = append(raws, "")
 				out = append(out, ne)
 				continue
 			}
@@ -381,6 +440,7 @@ func propagate(p bpath) bpath {
 				} else {
 					delete(env, name)
 				}
+				raws = append(raws, "")
 				out = append(out, ne)
 				continue
 			}
@@ -388,13 +448,16 @@ func propagate(p bpath) bpath {
 		ne.Text = sub(ev.Text)
 		if ev.Kind == "+" {
 			ne.Text = canonText(ne.Text, false)
+			raws = append(raws, ev.Text)
+		} else {
+			raws = append(raws, "")
 		}
 		out = append(out, ne)
 	}
 	for i := range out {
 		out[i].Text = minParensEvent(out[i].Kind, out[i].Text)
 	}
-	return out
+	return out, raws
 }
 
 // minParensEvent removes the parentheses that substitution introduced where precedence does not need them.
@@ -812,6 +875,10 @@ func (e *nenum) renderD(fr *nframe, x ast.Expr, depth int) string {
 		if s, ok := fr.multi[v.Name]; ok {
 			return s
 		}
+		// a package-level constant reads as its literal (a format string or marker given a name)
+		if lit, ok := e.c.consts[v.Name]; ok {
+			return lit
+		}
 		return v.Name
 	case *ast.ParenExpr:
 		return "(" + e.renderD(fr, v.X, depth) + ")"
@@ -856,6 +923,10 @@ func (e *nenum) renderD(fr *nframe, x ast.Expr, depth int) string {
 		ell := ""
 		if v.Ellipsis.IsValid() {
 			ell = "..."
+		}
+		// the number of runes of a string, in either spelling
+		if id, ok := v.Fun.(*ast.Ident); ok && id.Name == "len" && len(as) == 1 && strings.HasPrefix(as[0], "[]rune(") && wholeCall(as[0]) {
+			return "utf8.RuneCountInString(" + as[0][len("[]rune("):len(as[0])-1] + ")"
 		}
 		return e.renderD(fr, v.Fun, depth) + "(" + strings.Join(as, ",") + ell + ")"
 	}
@@ -1183,9 +1254,19 @@ func (e *nenum) stmts(fr *nframe, list []ast.Stmt) {
 	}
 }
 
+// rangeOperand: `for i := range len(xs)` visits the indices of xs like `for i := range xs`.
+func (e *nenum) rangeOperand(x *ast.RangeStmt) ast.Expr {
+	if x.Value == nil {
+		if ce, ok := stripParens(x.X).(*ast.CallExpr); ok && callName(ce) == "len" && len(ce.Args) == 1 {
+			return ce.Args[0]
+		}
+	}
+	return x.X
+}
+
 func (e *nenum) bindRange(fr *nframe, x *ast.RangeStmt) (initSet string) {
 	tag := fmt.Sprintf("#%d", e.depth)
-	xs := e.render(fr, x.X)
+	xs := e.render(fr, e.rangeOperand(x))
 	if id, ok := x.Key.(*ast.Ident); ok && id.Name != "_" {
 		fr.subst[id.Name] = tag
 	}
@@ -1442,7 +1523,7 @@ func (e *nenum) stmt(fr *nframe, s ast.Stmt) {
 			saved[k] = v
 		}
 		initSet := e.bindRange(fr, x)
-		e.add(pev{"loop", "range " + e.render(fr, x.X), x})
+		e.add(pev{"loop", "range " + e.render(fr, e.rangeOperand(x)), x})
 		if initSet != "" {
 			e.add(pev{"set", initSet, x})
 		}
@@ -1813,4 +1894,32 @@ func resolveAliases(p bpath) bpath {
 		out = append(out, ne)
 	}
 	return out
+}
+
+// withConsts records the package-level constants of the files (name -> literal text) so that a named literal and the
+// literal itself render the same.
+func (c *nctx) withConsts(files []*ast.File) *nctx {
+	c.consts = map[string]string{}
+	for _, f := range files {
+		for _, d := range f.Decls {
+			gd, ok := d.(*ast.GenDecl)
+			if !ok || gd.Tok != token.CONST {
+				continue
+			}
+			for _, sp := range gd.Specs {
+				vs, ok := sp.(*ast.ValueSpec)
+				if !ok {
+					continue
+				}
+				for i, nm := range vs.Names {
+					if i < len(vs.Values) {
+						if bl, ok := vs.Values[i].(*ast.BasicLit); ok {
+							c.consts[nm.Name] = nospaceLit(bl)
+						}
+					}
+				}
+			}
+		}
+	}
+	return c
 }
